@@ -1,15 +1,20 @@
-import CapyV.Spec.CapyCore
+import CapyV.Spec.CapyCoreMem
 /-!
-# C01 — meta-theorems about the reference semantics `CapyCore`
+# C01 — meta-theorems about the reference semantics `CapyCore` / `CapyCoreMem`
 
 C01 itself is decided per program (translation validation: the built executable's output and
 exit status against `CapyV.Core.run`). There is no Lean model of Cranelift code generation as
 a whole; the mechanisms that are modelled and proved are the other properties (C03 defers,
 C08 numerics, C10 checks, C17 layout, C23 parsing …). What is proved here is that the
-reference semantics itself has the shape the property describes.
+reference semantics itself has the shape the property describes: integer ranges, the exit status
+rule, and — for the addressable store of `CapyCoreMem` — the store frame lemmas (a write through a
+pointer changes exactly the cell pointed to: the reference-semantics side of property C02),
+read-after-write through a pointer, by-value copies, the slice bounds check, and that a pointer
+into a dead frame is `stuck`, never given a meaning.
 -/
 namespace CapyV.C01
-open CapyV.Core
+open CapyV.Core (BinOp CmpOp wrap listSet)
+open CapyV.CoreMem
 
 /-- values of an integer type stay in the type's two's-complement range -/
 theorem wrap_range (signed : Bool) (bits : Nat) (z : Int) :
@@ -39,7 +44,7 @@ theorem wrap_unsigned_id (bits : Nat) (z : Int) (h0 : 0 ≤ z) (h1 : z < 2 ^ bit
 /-- wrap-around arithmetic: `+` is addition modulo `2^bits` -/
 theorem add_is_modular (signed : Bool) (bits : Nat) (a b : Int) :
     ∃ k : Int, binInt .add (.int signed bits) a b = some (a + b + k * 2 ^ bits) := by
-  simp only [binInt, wrapTy, wrap]
+  simp only [CoreMem.binInt, intTy, Core.binInt, Core.wrapTy, wrap]
   have hd := Int.emod_add_mul_ediv (a + b) (2 ^ bits)
   split
   · refine ⟨-((a + b) / 2 ^ bits) - 1, ?_⟩
@@ -113,6 +118,344 @@ theorem listSet_length {α} (l : List α) (i : Nat) (v : α) : (listSet l i v).l
   | nil => simp [listSet]
   | cons a r ih => cases i <;> simp [listSet, ih]
 
+/-! ## the addressable store -/
+
+theorem listSet_same {α} (l : List α) (i : Nat) (v e : α) (h : l[i]? = some e) :
+    (listSet l i v)[i]? = some v := by
+  induction l generalizing i with
+  | nil => simp at h
+  | cons a r ih =>
+    cases i with
+    | zero => simp [listSet]
+    | succ i => simp [listSet]; exact ih i (by simpa using h)
+
+/-- reading back the sub-value just written -/
+theorem getPath_setPath_same : ∀ (path : List Nat) (old v new : Val),
+    setPath old path v = some new → getPath new path = some v
+  | [], old, v, new, h => by
+    cases old <;> simp [setPath] at h <;> subst h <;> cases v <;> simp [getPath]
+  | i :: r, old, v, new, h => by
+    cases old <;> simp only [setPath] at h <;> try (exact absurd h (by simp))
+    all_goals
+      split at h
+      · rename_i e he
+        split at h
+        · rename_i e' he'
+          cases h
+          simp only [getPath, listSet_same _ i e' e he]
+          exact getPath_setPath_same r e v e' he'
+        · cases h
+      · cases h
+
+/-- a write below index `i` leaves everything below another index `j` as it was -/
+theorem getPath_setPath_diverge (old v new : Val) (i j : Nat) (r r' : List Nat) (hij : j ≠ i)
+    (h : setPath old (i :: r) v = some new) : getPath new (j :: r') = getPath old (j :: r') := by
+  cases old <;> simp only [setPath] at h <;> try (exact absurd h (by simp))
+  all_goals
+    split at h
+    · split at h
+      · cases h
+        simp only [getPath, listSet_frame _ i j _ hij]
+      · cases h
+    · cases h
+
+/-- … at any depth: two access paths that diverge somewhere denote independent sub-values -/
+theorem getPath_setPath_disjoint : ∀ (pre : List Nat) (old v new : Val) (i j : Nat) (r r' : List Nat),
+    j ≠ i → setPath old (pre ++ i :: r) v = some new →
+    getPath new (pre ++ j :: r') = getPath old (pre ++ j :: r')
+  | [], old, v, new, i, j, r, r', hij, h => getPath_setPath_diverge old v new i j r r' hij h
+  | k :: pre, old, v, new, i, j, r, r', hij, h => by
+    cases old <;> simp only [List.cons_append, setPath] at h <;> try (exact absurd h (by simp))
+    all_goals
+      split at h
+      · rename_i e he
+        split at h
+        · rename_i e' he'
+          cases h
+          simp only [List.cons_append, getPath, listSet_same _ k e' e he, he]
+          exact getPath_setPath_disjoint pre e v e' i j r r' hij he'
+        · cases h
+      · cases h
+
+theorem lookupFrame_setFrame_same (f : Nat) (e : Env) (stk : List (Nat × Env)) (old : Env)
+    (h : lookupFrame f stk = some old) : lookupFrame f (setFrame f e stk) = some e := by
+  induction stk with
+  | nil => simp [lookupFrame] at h
+  | cons a r ih =>
+    obtain ⟨g, e'⟩ := a
+    by_cases hg : f = g
+    · simp [setFrame, lookupFrame, hg]
+    · simp only [lookupFrame, hg, if_false] at h
+      simp [setFrame, lookupFrame, hg, ih h]
+
+theorem lookupFrame_setFrame_other (f g : Nat) (e : Env) (stk : List (Nat × Env)) (h : g ≠ f) :
+    lookupFrame g (setFrame f e stk) = lookupFrame g stk := by
+  induction stk with
+  | nil => simp [setFrame]
+  | cons a r ih =>
+    obtain ⟨k, e'⟩ := a
+    by_cases hk : f = k
+    · subst hk; simp [setFrame, lookupFrame, h]
+    · by_cases hgk : g = k <;> simp [setFrame, lookupFrame, hk, hgk, ih]
+
+theorem setFrame_ids (f : Nat) (e : Env) (stk : List (Nat × Env)) :
+    (setFrame f e stk).map (·.1) = stk.map (·.1) := by
+  induction stk with
+  | nil => simp [setFrame]
+  | cons a r ih =>
+    obtain ⟨k, e'⟩ := a
+    by_cases hk : f = k <;> simp [setFrame, hk, ih]
+
+/-- the variables of frame `f` after its environment was replaced -/
+theorem frameEnv_with_same (st : St) (f : Nat) (e old : Env) (h : frameEnv st f = some old) :
+    frameEnv (withFrameEnv st f e) f = some e := by
+  unfold frameEnv withFrameEnv at *
+  by_cases hf : f = st.fid
+  · simp [hf]
+  · simp only [hf, if_false] at h ⊢
+    exact lookupFrame_setFrame_same f e st.stack old h
+
+theorem frameEnv_with_other (st : St) (f g : Nat) (e : Env) (h : g ≠ f) :
+    frameEnv (withFrameEnv st f e) g = frameEnv st g := by
+  unfold frameEnv withFrameEnv
+  by_cases hf : f = st.fid
+  · subst hf; simp [h]
+  · by_cases hg : g = st.fid
+    · simp [hf, hg]
+    · simp [hf, hg, lookupFrame_setFrame_other f g e st.stack h]
+
+/-- **(b) read-after-write.** Reading a cell immediately after a store to it yields the stored value. -/
+theorem load_after_store (st st' : St) (c : Cell) (v : Val) (h : storeCell st c v = some st') :
+    loadCell st' c = some v := by
+  unfold storeCell at h
+  split at h
+  · cases h
+  · rename_i env henv
+    split at h
+    · cases h
+    · rename_i old hold
+      split at h
+      · cases h
+      · rename_i new hnew
+        cases h
+        simp only [loadCell, frameEnv_with_same st c.frame _ env henv, setVar_get]
+        exact getPath_setPath_same c.path old v new hnew
+
+/-- **(a) store frame lemma, other variables.** A store to cell `c` leaves every cell of every
+other variable — of the same frame or of any other frame — exactly as it was. -/
+theorem store_frame_other_var (st st' : St) (c c' : Cell) (v : Val)
+    (h : storeCell st c v = some st') (hne : c'.frame ≠ c.frame ∨ c'.var ≠ c.var) :
+    loadCell st' c' = loadCell st c' := by
+  unfold storeCell at h
+  split at h
+  · cases h
+  · rename_i env henv
+    split at h
+    · cases h
+    · split at h
+      · cases h
+      · rename_i new _
+        cases h
+        by_cases hf : c'.frame = c.frame
+        · have hv : c'.var ≠ c.var := by
+            cases hne with
+            | inl h => exact absurd hf h
+            | inr h => exact h
+          simp only [loadCell, hf, frameEnv_with_same st c.frame _ env henv, henv, setVar_frame _ _ _ _ hv]
+        · simp only [loadCell, frameEnv_with_other st c.frame c'.frame _ hf]
+
+/-- **(a) store frame lemma, same variable.** A store at access path `pre ++ i :: r` of a variable
+leaves the sub-values at every diverging path `pre ++ j :: r'` (`j ≠ i`) of that variable as
+they were: a write to one element / field does not touch its siblings, at any depth. -/
+theorem store_frame_disjoint_path (st st' : St) (f x : Nat) (pre r r' : List Nat) (i j : Nat) (v : Val)
+    (hij : j ≠ i) (h : storeCell st ⟨f, x, pre ++ i :: r⟩ v = some st') :
+    loadCell st' ⟨f, x, pre ++ j :: r'⟩ = loadCell st ⟨f, x, pre ++ j :: r'⟩ := by
+  unfold storeCell at h
+  split at h
+  · cases h
+  · rename_i env henv
+    split at h
+    · cases h
+    · rename_i old hold
+      split at h
+      · cases h
+      · rename_i new hnew
+        cases h
+        simp only at henv hold hnew
+        simp only [loadCell, frameEnv_with_same st f _ env henv, henv, setVar_get, hold]
+        exact getPath_setPath_disjoint pre old v new i j r r' hij hnew
+
+/-- a store changes nothing but variables: output, the running frame, the set of live frames and
+the frame-id counter stay as they were -/
+theorem store_preserves_shape (st st' : St) (c : Cell) (v : Val) (h : storeCell st c v = some st') :
+    st'.out = st.out ∧ st'.fid = st.fid ∧ st'.next = st.next ∧
+      st'.stack.map (·.1) = st.stack.map (·.1) := by
+  unfold storeCell at h
+  split at h
+  · cases h
+  · split at h
+    · cases h
+    · split at h
+      · cases h
+      · cases h
+        unfold withFrameEnv
+        split <;> simp [setFrame_ids]
+
+/-- **by-value copies.** After `b := a`, a store into (any part of) `a` — directly or through a
+pointer — does not change `b`. (`storeCell` is the only way the interpreter changes a variable.) -/
+theorem copy_is_by_value (st st' : St) (a b : Nat) (path : List Nat) (v : Val) (hab : b ≠ a)
+    (h : storeCell st ⟨st.fid, a, path⟩ v = some st') :
+    loadCell st' ⟨st.fid, b, []⟩ = loadCell st ⟨st.fid, b, []⟩ :=
+  store_frame_other_var st st' ⟨st.fid, a, path⟩ ⟨st.fid, b, []⟩ v h (Or.inr hab)
+
+/-- **the statement `p^ = e`**: with `p` holding a pointer to cell `c`, the assignment evaluates
+`e` and then stores its value at `c` — by the frame lemmas above nothing else changes. -/
+theorem assign_through_pointer (p : Program) (n x : Nat) (e : Expr) (regs : List Stmt)
+    (st st2 st3 : St) (c : Cell) (v : Val)
+    (hx : lookup x st.env = some (.ptr c))
+    (he : evalE p (n + 2) e st = .ok (v, st2))
+    (hs : storeCell st2 c v = some st3) :
+    execSCore p (n + 3) (.assign (.deref (.var x)) e) regs st = .ok (.normal, regs, st3) := by
+  have hv : evalE p (n + 1) (.var x) st = .ok (.ptr c, st) := by simp [evalE, hx]
+  simp only [execSCore, resolve, hv, he, hs]
+
+/-- **(b) at the level of expressions**: `p^` evaluates to whatever is stored at the cell `p`
+points to, and changes nothing -/
+theorem deref_reads_cell (p : Program) (n x : Nat) (st : St) (c : Cell) (v : Val)
+    (hx : lookup x st.env = some (.ptr c)) (hl : loadCell st c = some v) :
+    evalE p (n + 2) (.deref (.var x)) st = .ok (v, st) := by
+  simp [evalE, hx, hl]
+
+/-- `p^ = e; … p^` — the read that follows the write sees the written value, provided `p` still
+holds the same pointer (it does unless `c` is `p`'s own cell) -/
+theorem read_back_through_pointer (p : Program) (n m x : Nat) (e : Expr) (regs : List Stmt)
+    (st st2 st3 : St) (c : Cell) (v : Val)
+    (hx : lookup x st.env = some (.ptr c))
+    (he : evalE p (n + 2) e st = .ok (v, st2))
+    (hs : storeCell st2 c v = some st3)
+    (hx3 : lookup x st3.env = some (.ptr c)) :
+    execSCore p (n + 3) (.assign (.deref (.var x)) e) regs st = .ok (.normal, regs, st3) ∧
+      evalE p (m + 2) (.deref (.var x)) st3 = .ok (v, st3) :=
+  ⟨assign_through_pointer p n x e regs st st2 st3 c v hx he hs,
+   deref_reads_cell p m x st3 c v hx3 (load_after_store st2 st3 c v hs)⟩
+
+/-- **(c) slice bounds check, reads**: an index `k ≥ len` into a slice faults with
+`indexOutOfBounds`; the state is the one after evaluating the operands — nothing was accessed. -/
+theorem slice_index_out_of_bounds (p : Program) (n : Nat) (a i : Expr) (st st1 st2 : St)
+    (c : Cell) (len : Nat) (k : Int)
+    (ha : evalE p n a st = .ok (.slice c len, st1))
+    (hi : evalE p n i st1 = .ok (.int k, st2))
+    (hk : (len : Int) ≤ k) :
+    evalE p (n + 1) (.index a i) st = .error (.indexOutOfBounds, st2) := by
+  have h0 : ¬ k < 0 := by omega
+  have h1 : ¬ k.toNat < len := by omega
+  simp [evalE, ha, hi, h0, h1]
+
+/-- **(c) slice bounds check, writes**: `s[i] = e` with `i ≥ s.len` faults with
+`indexOutOfBounds` before `e` is evaluated and before anything is stored: the resulting state is
+the one after evaluating the place's operands. -/
+theorem slice_store_out_of_bounds (p : Program) (n : Nat) (q : Place) (i e : Expr) (regs : List Stmt)
+    (st st1 st2 : St) (cs c : Cell) (len : Nat) (k : Int)
+    (hq : resolve p n q st = .ok (cs, st1))
+    (hi : evalE p n i st1 = .ok (.int k, st2))
+    (hl : loadCell st2 cs = some (.slice c len))
+    (hk : (len : Int) ≤ k) :
+    execSCore p (n + 2) (.assign (.index q i) e) regs st = .error (.indexOutOfBounds, st2) := by
+  have h0 : ¬ k < 0 := by omega
+  have h1 : ¬ k.toNat < len := by omega
+  simp [execSCore, resolve, hq, hi, hl, indexCell, h0, h1]
+
+/-- an in-range index into a slice reads the element cell of the underlying array -/
+theorem slice_index_in_bounds (p : Program) (n : Nat) (a i : Expr) (st st1 st2 : St)
+    (c : Cell) (len : Nat) (k : Int) (v : Val)
+    (ha : evalE p n a st = .ok (.slice c len, st1))
+    (hi : evalE p n i st1 = .ok (.int k, st2))
+    (h0 : 0 ≤ k) (hk : k < len)
+    (hl : loadCell st2 (c.push k.toNat) = some v) :
+    evalE p (n + 1) (.index a i) st = .ok (v, st2) := by
+  have h0' : ¬ k < 0 := by omega
+  have h1 : k.toNat < len := by omega
+  simp [evalE, ha, hi, h0', h1, hl]
+
+/-- **dead frames.** A cell of a frame that is neither running nor suspended cannot be read or
+written: `loadCell`/`storeCell` answer `none`, which the interpreter reports as `stuck`. -/
+theorem dead_frame_no_access (st : St) (c : Cell) (v : Val)
+    (h1 : c.frame ≠ st.fid) (h2 : lookupFrame c.frame st.stack = none) :
+    loadCell st c = none ∧ storeCell st c v = none := by
+  simp [loadCell, storeCell, frameEnv, h1, h2]
+
+theorem deref_dead_frame_stuck (p : Program) (n x : Nat) (st : St) (c : Cell)
+    (hx : lookup x st.env = some (.ptr c))
+    (h1 : c.frame ≠ st.fid) (h2 : lookupFrame c.frame st.stack = none) :
+    evalE p (n + 2) (.deref (.var x)) st
+      = .error (.stuck "dereference of a pointer into a dead frame", st) := by
+  simp [evalE, hx, (dead_frame_no_access st c .void h1 h2).1]
+
+/-- a function's frame id is fresh, and it is dead once the function has returned: after
+`pushFrame` … `popFrame` the callee's id is neither the running frame nor on the stack, provided
+ids below `next` were the only ones in use -/
+theorem callee_frame_dies (st : St) (env : Env)
+    (hfid : st.fid < st.next) (hstk : ∀ g ∈ st.stack.map (·.1), g < st.next) :
+    let callee := pushFrame st env
+    let back := popFrame callee
+    callee.fid ≠ back.fid ∧ lookupFrame callee.fid back.stack = none := by
+  simp only [pushFrame, popFrame]
+  refine ⟨by omega, ?_⟩
+  generalize st.stack = stk at hstk
+  induction stk with
+  | nil => rfl
+  | cons a r ih =>
+    obtain ⟨g, e⟩ := a
+    have hg : g < st.next := hstk g (by simp)
+    have : st.next ≠ g := by omega
+    simp only [lookupFrame, this, if_false]
+    exact ih (fun g' hg' => hstk g' (by simp at hg' ⊢; exact Or.inr hg'))
+
+/-- frame ids in use are below the counter: the invariant that makes every new frame id fresh -/
+def FramesWF (st : St) : Prop := st.fid < st.next ∧ ∀ g ∈ st.stack.map (·.1), g < st.next
+
+theorem framesWF_init : FramesWF St.init := by
+  refine ⟨by decide, ?_⟩
+  intro g hg
+  simp [St.init] at hg
+
+/-- entering a function keeps the invariant, and the callee's frame id is none of the live ones:
+an activation never shares cells with another one — in particular not with an outer activation
+of the *same* function (recursion) -/
+theorem framesWF_push (st : St) (env : Env) (h : FramesWF st) :
+    FramesWF (pushFrame st env) ∧ (pushFrame st env).fid ≠ st.fid ∧
+      (pushFrame st env).fid ∉ st.stack.map (·.1) := by
+  obtain ⟨h1, h2⟩ := h
+  refine ⟨⟨by simp [pushFrame], ?_⟩, by simp only [pushFrame]; omega, ?_⟩
+  · intro g hg
+    simp only [pushFrame, List.map_cons, List.mem_cons] at hg ⊢
+    cases hg with
+    | inl h => omega
+    | inr h => have := h2 g h; omega
+  · intro hmem
+    have := h2 _ hmem
+    simp only [pushFrame] at this
+    omega
+
+/-- leaving a function keeps the invariant -/
+theorem framesWF_pop (st : St) (h : FramesWF st) : FramesWF (popFrame st) := by
+  obtain ⟨h1, h2⟩ := h
+  unfold popFrame
+  split
+  · rename_i f e r hs
+    rw [hs] at h2
+    refine ⟨h2 f (by simp), ?_⟩
+    intro g hg
+    exact h2 g (by simp only [List.map_cons, List.mem_cons]; exact Or.inr hg)
+  · exact ⟨h1, h2⟩
+
+/-- a store keeps the invariant (it changes no frame id) -/
+theorem framesWF_store (st st' : St) (c : Cell) (v : Val) (h : FramesWF st)
+    (hs : storeCell st c v = some st') : FramesWF st' := by
+  obtain ⟨_, hfid, hnext, hids⟩ := store_preserves_shape st st' c v hs
+  obtain ⟨h1, h2⟩ := h
+  exact ⟨by omega, by rw [hids, hnext]; exact h2⟩
+
 /-! non-vacuity: a complete program, evaluated by the kernel -/
 def exProg : Program :=
   { fns := [{ params := [], retTy := .int true 32,
@@ -123,5 +466,61 @@ def exProg : Program :=
 
 example : wrap false 8 300 = 44 := by decide
 example : wrap true 8 (-129) = 127 := by decide
+
+/-- `main`: `x := 5; a := [1,2,3]; p :: ^mut x; f1(p, ^mut a[1]); b := a; a[1] = 9; print x, a[1], b[1];
+s : []i32 = a; print s.len; print s[5]` with `f1(p, q) { p^ = p^ + 1; q^ = 40; }` -/
+def exMem : Program :=
+  let i32 : Ty := .int true 32
+  { fns := [
+      { params := [], retTy := .void,
+        body := [.letS 1 (.lit i32 5),
+                 .letS 2 (.arrLit [.lit i32 1, .lit i32 2, .lit i32 3]),
+                 .letS 3 (.addrOf (.var 1)),
+                 .exprS (.call 1 [.var 3, .addrOf (.index (.var 2) (.lit i32 1))]),
+                 .letS 4 (.var 2),
+                 .assign (.index (.var 2) (.lit i32 1)) (.lit i32 9),
+                 .print (.var 1),
+                 .print (.index (.var 2) (.lit i32 1)),
+                 .print (.index (.var 4) (.lit i32 1)),
+                 .letS 5 (.sliceOf (.var 2)),
+                 .print (.len (.var 5)),
+                 .print (.index (.var 5) (.lit i32 5))] },
+      { params := [10, 11], retTy := .void,
+        body := [.assign (.deref (.var 10)) (.bin .add i32 (.deref (.var 10)) (.lit i32 1)),
+                 .assign (.deref (.var 11)) (.lit i32 40)] } ] }
+
+/-- the callee wrote the caller's `x` and `a[1]`; the copy `b` kept the value it was made from;
+the slice has the array's length and its bounds check aborts the run -/
+example : run exMem 40 = ⟨["6", "9", "40", "3"], "fault=index"⟩ := by decide +kernel
+
+/-- a pointer that outlives its frame: `f1` returns `^local`; dereferencing it in `main` is stuck -/
+def exDangling : Program :=
+  let i32 : Ty := .int true 32
+  { fns := [
+      { params := [], retTy := .void, body := [.letS 1 (.call 1 []), .print (.deref (.var 1))] },
+      { params := [], retTy := .ptr false i32, body := [.letS 2 (.lit i32 7), .ret (some (.addrOf (.var 2)))] } ] }
+
+/-- recursion: `f1(n, p)` adds `n` to `p^`, keeps a local `x = n`, and calls itself with `n - 1`
+and a pointer to *its own* `x`; after the inner call it prints `x` (changed by the inner
+activation through the pointer) — each activation has its own `x` although the variable id is the same -/
+def exRec : Program :=
+  let u8 : Ty := .int false 8
+  { fns := [
+      { params := [], retTy := .void,
+        body := [.letS 1 (.lit u8 100),
+                 .exprS (.call 1 [.lit u8 2, .addrOf (.var 1)]),
+                 .print (.var 1)] },
+      { params := [10, 11], retTy := .void,
+        body := [.opAssign .add u8 (.deref (.var 11)) (.var 10),
+                 .letS 12 (.var 10),
+                 .ifS (.cmp .gt u8 (.var 10) (.lit u8 0))
+                   [.exprS (.call 1 [.bin .sub u8 (.var 10) (.lit u8 1), .addrOf (.var 12)])] [],
+                 .print (.var 12)] } ] }
+
+/-- innermost first: `x₀ = 0`; `x₁ = 1 + 0`; `x₂ = 2 + 1`; main's cell got `+ 2` only -/
+example : run exRec 60 = ⟨["0", "1", "3", "102"], "exit=0"⟩ := by decide +kernel
+
+example : run exDangling 40 = ⟨[], "stuck=dereference of a pointer into a dead frame"⟩ := by
+  decide +kernel
 
 end CapyV.C01
